@@ -449,6 +449,8 @@ pub struct Stats {
     pub reuse_checks: u64,
     pub equivalence_groups_faulted: u64,
     pub long_texts: u64,
+    pub error_search_not_made: u64,
+    pub sequences: u64,
     pub digest: u64,
 }
 
@@ -530,6 +532,16 @@ pub fn check_case(re: &Regex, case: &Case, m: &Matches, st: &mut Stats) -> Optio
         }
     }
     let Some(expect) = expect else { return None };
+    // The model's sequence ends in a limit error that the (fault-free) search layer raises by
+    // itself, but the call made no search that ended in one and returned Ok: it never made the
+    // erroring search (e.g. it can tell from the pattern that the rest of the text is too short
+    // for a match). The statement asks that a search error be *returned as Err rather than a
+    // panic*; it does not ask that every search of the reference iteration be performed. Not
+    // judged here (a wrong "no further match" shows on the cases whose searches do not error).
+    if matches!(expect, Outcome::Err(_)) && matches!(o.out, Outcome::Ok(_)) && !o.runs.iter().any(|r| matches!(r.end, EndReason::BacktrackLimit | EndReason::StackOverflow)) {
+        st.error_search_not_made += 1;
+        return None;
+    }
     st.model_compared += 1;
     match (&o.out, &expect) {
         (Outcome::Ok((s, b)), Outcome::Ok((es, eb))) => {
@@ -568,7 +580,43 @@ fn class_of(case: &Case) -> Option<(String, String)> {
     check_case(&re, case, &m, &mut st).map(|f| (f.class, f.detail))
 }
 
+/// The same replacer text used with two regexes of one shape, one after the other on one thread:
+/// A, then B (= A behind one more optional group, so every group of A — the named ones too — has
+/// another number in B), then A again. "For every pattern ... and replacer" includes a replacer
+/// whose text has just been used with another pattern: every call is judged against the model of
+/// its own regex. (Each call alone is what `check_case` checks; here only the order matters.)
+pub fn sibling_of(pattern: &str) -> String {
+    format!("(é)?(?:{})", pattern)
+}
+
+fn sequence(patterns: &[String], ci: bool, base: &Case, st: &mut Stats) -> Option<(Found, usize)> {
+    for (k, p) in patterns.iter().enumerate() {
+        let re = compile_opt(p, ci)?;
+        let m = fault_free_matches(&re, &base.text);
+        if m.find.iter().any(|i| matches!(i, Item::Panic(_))) || m.caps.iter().any(|c| matches!(c, Outcome::Panic(_))) {
+            return None;
+        }
+        let mut c = base.clone();
+        c.pattern = p.clone();
+        c.fault = None;
+        if let Some(f) = check_case(&re, &c, &m, st) {
+            return Some((f, k));
+        }
+    }
+    None
+}
+
+fn replay_sequence(case: &Value) -> Option<(String, String)> {
+    let patterns: Vec<String> = case["patterns"].as_array()?.iter().filter_map(|p| p.as_str().map(|s| s.to_string())).collect();
+    let base = Case::from_json(&case["base"])?;
+    let mut st = Stats::default();
+    sequence(&patterns, base.ci, &base, &mut st).map(|(f, k)| (f.class, format!("call #{} of the sequence (on /{}/): {}", k + 1, patterns[k], f.detail)))
+}
+
 pub fn replay(case: &Value) -> Option<(String, String)> {
+    if case["kind"].as_str() == Some("c11-sequence") {
+        return replay_sequence(case);
+    }
     if case["kind"].as_str() == Some("c11-equivalence") {
         return replay_equivalence(case);
     }
@@ -882,6 +930,18 @@ fn job(seed: u64, i: u64) -> (JobOut, Option<Violation>) {
                     return (out, Some(Violation::new(PROP, &f.class, f.detail, replay)));
                 }
             }
+            // the same template, A then its sibling B then A again (templates that name a group)
+            if found.is_none() && !long && matches!(&case.rep, Rep::Template(t) if t.iter().any(|x| matches!(x, Tok::Name(..) | Tok::NameBare(..) | Tok::Group(_) | Tok::GroupBare(_)))) && rng.chance(1, 2) {
+                let patterns = vec![pattern.clone(), sibling_of(&pattern), pattern.clone()];
+                if compile_opt(&patterns[1], ci).is_some() {
+                    out.st.sequences += 1;
+                    if let Some((f, k)) = sequence(&patterns, ci, &case, &mut out.st) {
+                        let replay = json!({"kind": "c11-sequence", "patterns": patterns, "base": case.to_json()});
+                        let detail = format!("call #{} of the sequence (on /{}/): {}", k + 1, patterns[k], f.detail);
+                        return (out, Some(Violation::new(PROP, &f.class, detail, replay)));
+                    }
+                }
+            }
             // faults: pick searches of this very call (ordinals from a fault-free observation)
             if found.is_none() {
                 let o = observe(&re, &case);
@@ -963,6 +1023,8 @@ fn add(a: &mut Stats, b: &Stats) {
     a.reuse_checks += b.reuse_checks;
     a.equivalence_groups_faulted += b.equivalence_groups_faulted;
     a.long_texts += b.long_texts;
+    a.error_search_not_made += b.error_search_not_made;
+    a.sequences += b.sequences;
 }
 
 pub fn digest(seed: u64, n: u64, workers: usize) -> Vec<u64> {
@@ -1028,6 +1090,8 @@ pub fn run(opts: &Opts) -> i32 {
             "replacer_kind_equivalence_groups": st.equivalence_groups,
             "replacer_objects_reused_through_by_ref": st.reuse_checks,
             "texts_of_40_to_250_characters": st.long_texts,
+            "template_used_with_regex_A_then_sibling_B_then_A_sequences": st.sequences,
+            "calls_that_returned_ok_without_making_the_search_that_errors_in_the_reference_iteration": st.error_search_not_made,
             "replacer_kind_equivalence_groups_under_a_limit_fault": st.equivalence_groups_faulted,
             "calls_skipped_over_instruction_budget": st.budget_skipped,
             "panicking_wrappers_compared": st.wrappers_compared,
